@@ -225,22 +225,29 @@ func (st *State) loadBytes(addr *smt.Term, n int) []*smt.Term {
 	}
 	// symbolic offset: ite chain over feasible offsets
 	cands := st.offsetCandidates(sym, o.size-n)
-	if n <= 8 && n > 1 {
-		// word-level chain (keeps loaded pointers recognisable as an ite of addresses)
-		var acc *smt.Term
-		for j := len(cands) - 1; j >= 0; j-- {
-			bs := make([]*smt.Term, n)
-			for i := 0; i < n; i++ {
-				bs[i] = st.byteAt(o, cands[j]+i)
+	if n > 1 && (n <= 8 || (n%8 == 0 && n <= 64)) {
+		// word-level chains (keep loaded pointers / interface words recognisable as an ite of constants)
+		for base := 0; base < n; base += 8 {
+			wn := n - base
+			if wn > 8 {
+				wn = 8
 			}
-			w := st.bytesToTerm(bs)
-			if acc == nil {
-				acc = w
-			} else {
-				acc = st.c.Ite(st.c.Eq(sym, st.c.Const(uint64(cands[j]), 64)), w, acc)
+			var acc *smt.Term
+			for j := len(cands) - 1; j >= 0; j-- {
+				bs := make([]*smt.Term, wn)
+				for i := 0; i < wn; i++ {
+					bs[i] = st.byteAt(o, cands[j]+base+i)
+				}
+				w := st.bytesToTerm(bs)
+				if acc == nil {
+					acc = w
+				} else {
+					acc = st.c.Ite(st.c.Eq(sym, st.c.Const(uint64(cands[j]), 64)), w, acc)
+				}
 			}
+			copy(out[base:], st.termToBytes(acc, wn))
 		}
-		return st.termToBytes(acc, n)
+		return out
 	}
 	for i := 0; i < n; i++ {
 		var acc *smt.Term
@@ -404,8 +411,9 @@ func stride(t *smt.Term, depth int) (step, phase uint64) {
 		s2, p2 := stride(t.B, depth+1)
 		_, h1 := urange(t.A, 0)
 		_, h2 := urange(t.B, 0)
-		if h1 > ^uint64(0)-h2 {
-			return 1, 0 // may wrap
+		pow2 := func(x uint64) bool { return x == 0 || x&(x-1) == 0 }
+		if h1 > ^uint64(0)-h2 && !(pow2(s1) && pow2(s2)) {
+			return 1, 0 // may wrap (harmless only for power-of-two strides: 2^64 is a multiple)
 		}
 		switch {
 		case s1 == 0 && s2 == 0:
